@@ -52,6 +52,20 @@ func TestVerifReplay(t *testing.T) {
 	R := new(big.Int).Lsh(big.NewInt(1), 256)
 	Ri := new(big.Int).ModInverse(R, vM)
 	for i, c := range f.Cases {
+		if c.Kind == "wide" {
+			var in [48]byte
+			raw, _ := new(big.Int).SetString(c.A, 16)
+			raw.FillBytes(in[:])
+			var out MontgomeryDomainFieldElement
+			HashToFieldElement(&out, in)
+			var nm NonMontgomeryDomainFieldElement
+			FromMontgomery(&nm, &out)
+			want := new(big.Int).Mod(raw, vM)
+			if vValOf(nm).Cmp(want) != 0 || vValOf(out).Cmp(vM) >= 0 {
+				t.Errorf("MISMATCH case=%d kind=wide: HashToFieldElement(%s) = %x (stored %x), want OS2IP mod n = %x", i, c.A, vValOf(nm), vValOf(out), want)
+			}
+			continue
+		}
 		if c.Kind != "kernel" && c.Kind != "kernel-expect" {
 			continue
 		}
